@@ -1,15 +1,26 @@
 (* C14: the independent from-the-standard decoder (JlsT87Dec) against the Go-shaped models.
    Full statement (t87_agrees_statement): on every encoder stream t87_decode returns what the
-   library decoder model returns. Proved here: (a) the building blocks of the two decoders
-   compute the same functions (gradient quantisation, MED, context numbering with sign, the
-   context update, the reconstruction), (b) the full statement on finite domains by computation:
-   all one-component images up to 2x2 and all three-component 1x1 images at P = 2 for NEAR 0 and 1,
-   and the T.87 H.3 image. What is missing for the full statement is the lockstep between the
-   two line formulations (extended-line windows of JlsT87Dec vs prevFirstPrev/prevNeg1 of the Go
-   code) — the per-sample blocks are shown equal below; the harness runs the extracted
-   t87_decode against Go on every generated stream (C14 oracle). *)
+   library decoder model returns. Proved here:
+   (a) the building blocks of the two decoders compute the same functions (gradient
+       quantisation, MED, context numbering with sign, the context update, the reconstruction);
+   (b) the full statement on finite domains by computation: all one-component images up to 2x2
+       (and 3x1) and all three-component 1x1 images at P = 2 for NEAR 0 and 1, and the H.3 image;
+   (c) symbol level, all parameters: the T.87 decoder's Golomb decoding (t87_golomb_roundtrip),
+       regular-mode sample (t87_regular_roundtrip), run-length (t87_run_length_roundtrip) and
+       run-interruption sample (t87_interruption_roundtrip) applied to the bits the coded
+       encoder wrote recover exactly what the encoder coded, stored and updated.
+   Missing for t87_agrees_statement: the line-level lockstep, i.e. (1) the invariant that ties
+   the two state representations over a scan (context bounds 1 <= N <= 64, A <= N*2^16,
+   -N < B <= 0 for the 365 contexts; they are preserved because |Errval| <= RANGE/2),
+   (2) equality of the causal templates: neighbors1 / sampleNeighbors with prevFirstPrev,
+   prevNeg1 (previousLineFirst, previousPreviousLineFirst) on windows of (dummy :: prev) versus
+   t87_template on windows of the extended line c_left :: prev ++ [last], (3) the induction over
+   t87_line / t87_lines for one and three components, (4) t87_segments on the encoders' headers
+   and the equality of the two output containers. The harness runs the extracted t87_decode
+   against Go on every generated stream (C14 oracle). *)
 From V Require Import Common.Base JpegLS.JlsParams JpegLS.JlsGolomb JpegLS.JlsRun JpegLS.JlsModel JpegLS.JlsT87Dec.
-From V Require Import JpegLS.JlsProofsParams JpegLS.JlsProofsGolomb JpegLS.JlsProofsSample JpegLS.JlsProofsNear0.
+From V Require Import JpegLS.JlsProofsParams JpegLS.JlsProofsGolomb JpegLS.JlsProofsWriter JpegLS.JlsProofsSample
+                      JpegLS.JlsProofsRun JpegLS.JlsProofsNear0 JpegLS.JlsProofsInterrupt.
 
 Definition t87_result_eq (a : outcome t87_image) (b : outcome decoded) : Prop :=
   match a, b with
@@ -155,3 +166,416 @@ Theorem t87_agrees_H3 :
   | _ => False
   end.
 Proof. split; [|split; [|split]]; vm_compute; reflexivity. Qed.
+
+(* ---------- (c) symbol level: the T.87 decoder on the encoder's bits ---------- *)
+
+Lemma t87_take_bits_eq : forall n bits acc, t87_take_bits n bits acc = read_bits_nat n bits acc.
+Proof.
+  induction n as [|n IH]; intros bits acc; cbn [t87_take_bits read_bits_nat]; [reflexivity|].
+  destruct bits as [|b r]; [reflexivity|]. rewrite IH. f_equal. unfold b2z. destruct b; lia.
+Qed.
+
+Lemma t87_count_zeros_spec : forall n r c,
+  t87_count_zeros (repeat false n ++ true :: r) c = Some (c + Z.of_nat n, r).
+Proof.
+  induction n as [|n IH]; intros r c; cbn [repeat app t87_count_zeros].
+  - f_equal. f_equal. lia.
+  - rewrite IH. f_equal. f_equal. lia.
+Qed.
+
+Lemma t87_take_bits_of : forall v n r, 0 <= n -> 0 <= v < 2 ^ n ->
+  t87_take_bits (Z.to_nat n) (bits_of v n ++ r) 0 = Some (v, r).
+Proof.
+  intros v n r Hn Hv. rewrite t87_take_bits_eq. unfold bits_of. rewrite read_bits_nat_bits_of.
+  rewrite Z2Nat.id by lia. rewrite Z.mod_small by lia. reflexivity.
+Qed.
+
+(* t87_golomb_roundtrip: the limited-length Golomb decoder written from T.87 A.5.3 inverts the
+   coded EncodeMappedValue (same side conditions as golomb_roundtrip) *)
+Theorem t87_golomb_roundtrip : forall k m limit qbpp rest,
+  0 <= k <= 32 -> 0 <= qbpp <= 32 -> qbpp + 1 < limit <= 64 -> 0 <= m ->
+  (limit - (qbpp + 1) <= Z.shiftr m k -> m - 1 < 2 ^ qbpp) ->
+  t87_golomb k limit qbpp (ops_bits (encode_mapped_ops k m limit qbpp) ++ rest) = Some (m, rest).
+Proof.
+  intros k m limit qbpp rest Hk Hq Hl Hm Hesc.
+  unfold encode_mapped_ops, t87_golomb. cbv zeta.
+  rewrite Z.shiftr_div_pow2 in * by lia.
+  assert (Hpk : 0 < 2 ^ k) by (apply Z.pow_pos_nonneg; lia).
+  assert (Hhigh : 0 <= m / 2 ^ k) by (apply Z.div_pos; lia).
+  destruct (Z.ltb_spec (m / 2 ^ k) (limit - (qbpp + 1))) as [Hlt|Hge].
+  - rewrite !ops_bits_app. rewrite (app_assoc (ops_bits _) (ops_bits (write_unary_ops _))).
+    rewrite unary_split_bits by lia.
+    rewrite <- !app_assoc. cbn [app].
+    rewrite t87_count_zeros_spec. rewrite Z2Nat.id by lia. rewrite Z.add_0_l.
+    destruct (Z.ltb_spec (m / 2 ^ k) (limit - qbpp - 1)); [|lia].
+    destruct (Z.gtb_spec k 0) as [Hk0|Hk0].
+    + cbn [ops_bits]. rewrite app_nil_r.
+      rewrite Z.shiftl_1_l. replace (2 ^ k - 1) with (Z.ones k) by (rewrite Z.ones_equiv; lia).
+      rewrite Z.land_ones by lia.
+      assert (Hmod : 0 <= m mod 2 ^ k < 2 ^ k) by (apply Z.mod_pos_bound; lia).
+      assert (H32 : 2 ^ k <= 2 ^ 32) by (apply Z.pow_le_mono_r; lia).
+      unfold wrapU. rewrite (Z.mod_small (m mod 2 ^ k)) by lia.
+      rewrite t87_take_bits_of by lia. f_equal. f_equal.
+      rewrite (Z.div_mod m (2 ^ k)) at 3 by lia. ring.
+    + assert (k = 0) by lia. subst k. cbn [ops_bits app Z.to_nat t87_take_bits].
+      f_equal. f_equal. change (2 ^ 0) with 1. rewrite Z.div_1_r. lia.
+  - specialize (Hesc Hge).
+    rewrite ops_bits_app, escape_prefix_bits by lia.
+    rewrite <- !app_assoc. cbn [app].
+    rewrite t87_count_zeros_spec. rewrite Z2Nat.id by lia. rewrite Z.add_0_l.
+    destruct (Z.ltb_spec (limit - qbpp - 1) (limit - qbpp - 1)); [lia|].
+    rewrite Z.eqb_refl.
+    cbn [ops_bits]. rewrite app_nil_r.
+    assert (Hm1 : 1 <= m).
+    { destruct (Z.eq_dec m 0) as [->|]; [|lia]. rewrite Z.div_0_l in Hge by lia. lia. }
+    rewrite Z.shiftl_1_l. replace (2 ^ qbpp - 1) with (Z.ones qbpp) by (rewrite Z.ones_equiv; lia).
+    rewrite Z.land_ones by lia. rewrite (Z.mod_small (m - 1)) by lia.
+    assert (H32 : 2 ^ qbpp <= 2 ^ 32) by (apply Z.pow_le_mono_r; lia).
+    unfold wrapU. rewrite (Z.mod_small (m - 1)) by lia.
+    rewrite t87_take_bits_of by lia. f_equal. f_equal. lia.
+Qed.
+
+(* the Golomb parameter: T.87's unbounded loop = the coded loop (capped at 16) when A <= N * 2^16,
+   which holds on every stream of the encoders (|Errval| <= RANGE/2 <= 2^15 per sample) *)
+Lemma t87_k_eq : forall f1 f2 n a k,
+  1 <= n -> a <= n * 65536 -> 0 <= k <= 16 -> (Z.to_nat (16 - k) < f1)%nat -> (Z.to_nat (16 - k) < f2)%nat ->
+  cgp_loop f1 n a k = t87_k f2 n a k.
+Proof.
+  induction f1 as [|f1 IH]; intros f2 n a k Hn Ha Hk H1 H2; [lia|].
+  destruct f2 as [|f2]; [lia|]. cbn [cgp_loop t87_k].
+  rewrite Z.shiftl_mul_pow2 by lia.
+  destruct (Z.ltb_spec (n * 2 ^ k) a) as [Hlt|Hge]; cbn [andb]; [|reflexivity].
+  assert (k < 16).
+  { destruct (Z.eq_dec k 16) as [->|]; [change (2 ^ 16) with 65536 in Hlt; lia | lia]. }
+  destruct (Z.ltb_spec k 16); [|lia]. apply IH; lia.
+Qed.
+
+(* the shape of one coded regular-mode sample (nearlossless error computation) *)
+Lemma regular_enc_shape : forall P near store c qs ra rb rc x,
+  2 <= P <= 16 -> 0 <= near <= near_max P -> 0 <= x <= 2 ^ P - 1 ->
+  let p := jls_params P near in
+  let sg := sgn_of qs in
+  let k := ComputeGolombParameter c in
+  let pv := CorrectPrediction p (Predict ra rb rc + sg * cC c) in
+  let e := ModuloRange p (quantize p (sg * (x - pv))) in
+  let ec := GetErrorCorrection c k near in
+  let m := MapErrorValue (Z.lxor ec e) in
+  regular_enc PkNear store p c qs ra rb rc x =
+    (encode_mapped_ops k m (jp_limit p) (jp_qbpp p), UpdateContext c e near 64,
+     if store then ComputeReconstructedSample p pv (sg * e) else x) /\
+  0 <= m /\ m - 1 < 2 ^ jp_qbpp p /\ - (jp_range p - 1) <= e <= jp_range p - 1 /\
+  2 * Z.abs e <= jp_range p /\ 0 <= pv <= 2 ^ P - 1 /\ 0 <= k <= 16.
+Proof.
+  intros P near store c qs ra rb rc x HP Hn Hx p sg k pv e ec m.
+  pose proof (jls_params_facts P near HP Hn) as F. fold p in F.
+  destruct F as [Fmv Fnear Frange Fr2 Frq Fq1 Fq16 Fll Flh Freset Ft1 Ft12 Ft23 Fa].
+  pose proof (near_max_half P near HP Hn) as Hhalf. pose proof (pow2_bounds P HP) as Hpb.
+  assert (Hn0 : 0 <= jp_near p) by lia. assert (Hn2 : 2 * jp_near p <= jp_maxval p) by lia.
+  assert (HR : jp_range p = (jp_maxval p + 2 * jp_near p) / (2 * jp_near p + 1) + 1) by (rewrite Fnear; exact Frange).
+  assert (Hk : 0 <= k <= 16) by apply ComputeGolombParameter_bound.
+  assert (Hpv : 0 <= pv <= jp_maxval p).
+  { unfold pv, CorrectPrediction.
+    destruct (Z.ltb_spec (Predict ra rb rc + sg * cC c) 0); [lia|].
+    destruct (Z.gtb_spec (Predict ra rb rc + sg * cC c) (jp_maxval p)); lia. }
+  assert (Hd : - jp_maxval p <= sg * (x - pv) <= jp_maxval p).
+  { destruct (sgn_of_cases qs) as [E|E]; unfold sg; rewrite E; lia. }
+  destruct (quantize_spec p P HP Fmv Hn0 Hn2 HR _ Hd) as [_ Hq2].
+  assert (Hec : ec = 0 \/ ec = -1) by apply GetErrorCorrection_cases.
+  destruct (mapped_range p P HP Fmv Hn0 Hn2 HR _ ec Hq2 Hec) as [Hm0 Hm1].
+  destruct (ModuloRange_spec p P HP Fmv Hn0 Hn2 HR _ Hq2) as [_ Her].
+  fold e in Hm0, Hm1, Her. fold m in Hm0, Hm1.
+  assert (Hh : 2 * (jp_range p / 2) <= jp_range p /\ 2 * ((jp_range p + 1) / 2) <= jp_range p + 1)
+    by (Z.div_mod_to_equations; lia).
+  split.
+  - unfold regular_enc. cbv zeta. unfold pk_error, Traits_ComputeErrorValue.
+    rewrite !ApplySign_sgn. fold sg. rewrite (Z.mul_comm sg (cC c)) || idtac.
+    replace (cC c * sg) with (sg * cC c) by ring. fold pv. fold k.
+    rewrite GetErrorCorrection_lor by lia. rewrite Fnear, Freset. fold e. reflexivity.
+  - repeat split; try lia.
+Qed.
+
+(* relation between a T.87 context and a context of the library model *)
+Definition ctx_rel (t : t87ctx) (c : rctx) : Prop := tA t = cA c /\ tB t = cB c /\ tC t = cC c /\ tN t = cN c.
+
+(* t87_regular_roundtrip: the from-the-standard regular-mode decoding of the bits the encoder
+   wrote for a sample reconstructs what the encoder stored and makes the corresponding context
+   update. Context bounds: N >= 1, 0 <= A <= N * 2^16 and A, |B| below 2^23 (they hold on every
+   encoder stream; they make the coded cap k < 16 and the overflow guard of UpdateContext inert). *)
+Theorem t87_regular_roundtrip : forall P near c t st ra rb rc rd x rest ops c' stored,
+  2 <= P <= 16 -> 0 <= near <= near_max P -> 0 <= x <= 2 ^ P - 1 ->
+  let p := jls_params P near in
+  let qs := context_qs p ra rb rc rd in
+  qs <> 0 ->
+  nth (Z.to_nat (Z.abs qs)) (ts_ctx st) (mkT87Ctx 0 0 0 0) = t -> ctx_rel t c ->
+  1 <= cN c -> 0 <= cA c <= cN c * 65536 -> cA c < 8388608 -> Z.abs (cB c) < 8388608 ->
+  regular_enc PkNear true p c qs ra rb rc x = (ops, c', stored) ->
+  exists t',
+    t87_regular p st ra rb rc rd (ops_bits ops ++ rest) =
+      Some (stored, mkT87St (t87_set (Z.to_nat (Z.abs qs)) (ts_ctx st) t') (ts_r365 st) (ts_r366 st) (ts_runindex st), rest) /\
+    ctx_rel t' c'.
+Proof.
+  intros P near c t st ra rb rc rd x rest ops c' stored HP Hn Hx p qs Hqs Hnth (RA & RB & RC & RN) HN HA HA2 HB Henc.
+  destruct (regular_enc_shape P near true c qs ra rb rc x HP Hn Hx) as (Hshape & Hm0 & Hm1 & Her & Heabs & Hpv & Hk).
+  fold p in Hshape, Hm0, Hm1, Her, Heabs, Hpv.
+  rewrite Hshape in Henc. inversion Henc as [[Hops Hc' Hst]]. clear Henc.
+  pose proof (jls_params_facts P near HP Hn) as F. fold p in F.
+  destruct F as [Fmv Fnear Frange Fr2 Frq Fq1 Fq16 Fll Flh Freset Ft1 Ft12 Ft23 Fa].
+  pose proof (pow2_bounds P HP) as Hpb.
+  set (sg := sgn_of qs) in *. set (k := ComputeGolombParameter c) in *.
+  set (pv := CorrectPrediction p (Predict ra rb rc + sg * cC c)) in *.
+  set (e := ModuloRange p (quantize p (sg * (x - pv)))) in *.
+  set (ec := GetErrorCorrection c k near) in *.
+  set (m := MapErrorValue (Z.lxor ec e)) in *.
+  assert (HR16 : jp_range p <= 65536).
+  { assert (2 ^ jp_qbpp p <= 2 ^ 16) by (apply Z.pow_le_mono_r; lia). change (2 ^ 16) with 65536 in *. lia. }
+  unfold t87_regular.
+  (* context number and sign *)
+  pose proof (quantizeGradient_range p (rd - rb)) as Q1. pose proof (quantizeGradient_range p (rb - rc)) as Q2.
+  pose proof (quantizeGradient_range p (rc - ra)) as Q3.
+  rewrite (t87_context_eq (t87_quant p (rd - rb)) (t87_quant p (rb - rc)) (t87_quant p (rc - ra)) Q1 Q2 Q3 Hqs).
+  change ((t87_quant p (rd - rb) * 9 + t87_quant p (rb - rc)) * 9 + t87_quant p (rc - ra)) with qs. fold sg.
+  rewrite Hnth.
+  (* prediction *)
+  rewrite t87_med_eq, t87_clip_eq, RC. fold pv.
+  (* Golomb parameter *)
+  assert (Hkeq : t87_k 40 (tN t) (tA t) 0 = k).
+  { rewrite RN, RA. unfold k, ComputeGolombParameter. symmetry. apply t87_k_eq; simpl; lia. }
+  rewrite Hkeq.
+  rewrite t87_golomb_roundtrip by lia.
+  (* error value *)
+  assert (Hec : ec = 0 \/ ec = -1) by apply GetErrorCorrection_cases.
+  assert (Herr : (if (jp_near p =? 0) && (k =? 0) && (2 * tB t <=? - tN t)
+                  then (if Z.odd m then (m - 1) / 2 else - (m / 2) - 1)
+                  else (if Z.odd m then - ((m + 1) / 2) else m / 2)) = e).
+  { assert (Hcond : (jp_near p =? 0) && (k =? 0) && (2 * tB t <=? - tN t) = (ec =? -1)).
+    { unfold ec, GetErrorCorrection. rewrite Fnear, RB, RN.
+      destruct (Z.eqb_spec near 0); destruct (Z.eqb_spec k 0); cbn [negb orb andb]; try reflexivity.
+      destruct (Z.leb_spec (2 * cB c) (- cN c)); destruct (Z.ltb_spec (2 * cB c + cN c - 1) 0); try lia; reflexivity. }
+    rewrite Hcond. unfold m.
+    assert (He31 : - 2 ^ 31 <= e < 2 ^ 31 /\ - 2 ^ 31 <= - e - 1 < 2 ^ 31) by (change (2 ^ 31) with 2147483648; lia).
+    destruct Hec as [E|E]; rewrite E.
+    - rewrite Z.lxor_0_l. cbn [Z.eqb]. rewrite MapErrorValue_spec by lia.
+      destruct (Z.ltb_spec e 0).
+      + replace (-2 * e - 1) with (1 + 2 * (- e - 1)) by ring. rewrite Z.odd_add_mul_2. cbn [Z.odd].
+        replace (1 + 2 * (- e - 1) + 1) with ((- e) * 2) by ring. rewrite Z.div_mul by lia. lia.
+      + replace (2 * e) with (0 + 2 * e) by ring. rewrite Z.odd_add_mul_2. cbn [Z.odd].
+        rewrite Z.add_0_l, Z.mul_comm, Z.div_mul by lia. reflexivity.
+    - rewrite Z.lxor_m1_l. unfold Z.lnot. replace (Z.pred (- e)) with (- e - 1) by lia. cbn [Z.eqb Pos.eqb].
+      rewrite MapErrorValue_spec by lia.
+      destruct (Z.ltb_spec (- e - 1) 0).
+      + replace (-2 * (- e - 1) - 1) with (1 + 2 * e) by ring. rewrite Z.odd_add_mul_2. cbn [Z.odd].
+        replace (1 + 2 * e - 1) with (e * 2) by ring. rewrite Z.div_mul by lia. reflexivity.
+      + replace (2 * (- e - 1)) with (0 + 2 * (- e - 1)) by ring. rewrite Z.odd_add_mul_2. cbn [Z.odd].
+        rewrite Z.add_0_l, Z.mul_comm, Z.div_mul by lia. lia. }
+  rewrite Herr.
+  (* update and reconstruction *)
+  assert (Hs : 2 * jp_near p + 1 <= 511) by (unfold near_max in Hn; lia).
+  assert (HRs : jp_range p * (2 * jp_near p + 1) <= 2 ^ P - 1 + 2 * near + (2 * near + 1)).
+  { rewrite Frange, Fmv, Fnear. pose proof (Z.mul_div_le (2 ^ P - 1 + 2 * near) (2 * near + 1) ltac:(lia)). lia. }
+  assert (Hes : Z.abs (e * (2 * jp_near p + 1)) <= 66600).
+  { rewrite Z.abs_mul, (Z.abs_eq (2 * jp_near p + 1)) by lia. rewrite Fnear in *. nia. }
+  pose proof (t87_update_eq p t e ltac:(rewrite RA; lia) ltac:(rewrite RB; lia)) as Hupd.
+  cbv zeta in Hupd. rewrite RA, RB, RC, RN in Hupd.
+  replace (mkCtx (cA c) (cB c) (cC c) (cN c)) with c in Hupd by (destruct c; reflexivity).
+  rewrite Fnear, Freset in Hupd.
+  exists (t87_update p t e). split.
+  - pose proof (t87_reconstruct_eq P near pv sg e HP Hn (sgn_of_cases qs) Hpv Her) as Hrec.
+    cbv zeta in Hrec. unfold p. rewrite Hrec. reflexivity.
+  - unfold ctx_rel. try rewrite <- Hc'. rewrite Hupd. cbn. auto.
+Qed.
+
+(* ---------- run length ---------- *)
+
+Lemma t87_Jof_eq : forall ri, t87_Jof ri = Jof ri.
+Proof. reflexivity. Qed.
+
+Lemma t87_runlen_sync : forall fuel rl ri acc rl' ri' acc',
+  enc_runlen_loop fuel rl ri acc = Some (rl', ri', acc') ->
+  0 <= ri <= 31 -> 0 <= rl ->
+  exists ones,
+    acc' = repeat (1, 1) ones ++ acc /\ 0 <= rl' < 2 ^ Jof ri' /\ 0 <= ri' <= 31 /\ rl' <= rl /\
+    (forall remaining done tail, 0 <= done -> done + (rl - rl') < remaining ->
+       t87_run_length (repeat true ones ++ tail) remaining done ri =
+       t87_run_length tail remaining (done + rl - rl') ri') /\
+    (rl' = 0 -> 0 < rl -> forall remaining done tail, 0 <= done -> done + rl = remaining ->
+       t87_run_length (repeat true ones ++ tail) remaining done ri = Some (remaining, true, ri', tail)).
+Proof.
+  induction fuel as [|f IH]; intros rl ri acc rl' ri' acc' H Hri Hrl; cbn [enc_runlen_loop] in H; [discriminate|].
+  pose proof (pow_J_pos ri Hri) as Hfull. rewrite Z.shiftl_1_l in *.
+  destruct (Z.geb_spec rl (2 ^ Jof ri)) as [Hge|Hlt].
+  - pose proof (inc_run_index_range ri Hri) as Hri1.
+    destruct (IH _ _ _ _ _ _ H Hri1 ltac:(lia)) as (ones & Hacc & Hrl' & Hri' & Hle & Hcont & Hend).
+    exists (S ones). split; [rewrite Hacc; cbn [repeat app]; apply repeat_snoc|].
+    split; [exact Hrl'|]. split; [exact Hri'|]. split; [lia|]. split.
+    + intros remaining done tail Hd Hl. cbn [repeat app t87_run_length]. rewrite t87_Jof_eq.
+      destruct (Z.ltb_spec (done + 2 ^ Jof ri) remaining); [|lia].
+      change (if ri <? 31 then ri + 1 else ri) with (inc_run_index ri).
+      rewrite Hcont by lia. f_equal. lia.
+    + intros Hz Hpos remaining done tail Hd Heq. cbn [repeat app t87_run_length]. rewrite t87_Jof_eq.
+      change (if ri <? 31 then ri + 1 else ri) with (inc_run_index ri).
+      destruct (Z.ltb_spec (done + 2 ^ Jof ri) remaining) as [Hless|Hnl].
+      * apply Hend; lia.
+      * destruct (Z.eqb_spec (done + 2 ^ Jof ri) remaining); [|lia].
+        assert (Hrl0 : rl - 2 ^ Jof ri = 0) by lia.
+        destruct f as [|f']; cbn [enc_runlen_loop] in H; [discriminate|].
+        pose proof (pow_J_pos _ Hri1) as Hp1.
+        destruct (Z.geb_spec (rl - 2 ^ Jof ri) (Z.shiftl 1 (Jof (inc_run_index ri)))) as [Hx|Hx].
+        { lia. }
+        injection H as E1 E2 E3.
+        assert (ones = O).
+        { rewrite <- E3 in Hacc. apply (f_equal (@length wop)) in Hacc.
+          rewrite app_length, repeat_length in Hacc. cbn [length] in Hacc. unfold wop in Hacc. clear - Hacc. lia. }
+        subst ri'.
+        subst ones. reflexivity.
+  - inversion H; subst. exists O. split; [reflexivity|]. split; [lia|].
+    split; [exact Hri|]. split; [lia|]. split.
+    + intros remaining done tail Hd Hl. cbn [repeat app]. f_equal. lia.
+    + intros Hz Hpos. lia.
+Qed.
+
+(* t87_run_length_roundtrip: the A.7.1 run-length decoding of the bits EncodeRunLength wrote *)
+Theorem t87_run_length_roundtrip : forall fuel n remaining ri rest ops ri',
+  0 <= ri <= 31 -> 0 <= n <= remaining -> 1 <= remaining ->
+  EncodeRunLength fuel n (n =? remaining) ri = Some (ops, ri') ->
+  t87_run_length (ops_bits ops ++ rest) remaining 0 ri = Some (n, (n =? remaining), ri', rest).
+Proof.
+  intros fuel n remaining ri rest ops ri' Hri Hn Hrem Henc.
+  unfold EncodeRunLength in Henc.
+  destruct (enc_runlen_loop fuel n ri []) as [[[rl' r1] acc']|] eqn:Hloop; [|discriminate].
+  destruct (t87_runlen_sync _ _ _ _ _ _ _ Hloop Hri ltac:(lia)) as (ones & Hacc & Hrl' & Hri' & Hle & Hcont & Hend).
+  rewrite app_nil_r in Hacc. subst acc'.
+  pose proof (Jof_range r1 Hri') as HJ.
+  destruct (Z.eqb_spec n remaining) as [Heol|Hneol].
+  - inversion Henc; subst ops ri'. clear Henc. rewrite frev_rev.
+    destruct (Z.eqb_spec rl' 0) as [Hz|Hnz]; cbn [negb].
+    + rewrite rev_repeat, ops_bits_ones. rewrite (Hend Hz ltac:(lia) remaining 0 rest ltac:(lia) ltac:(lia)).
+      subst n. reflexivity.
+    + cbn [rev]. rewrite rev_repeat, ops_bits_app, ops_bits_ones. cbn [ops_bits]. rewrite app_nil_r.
+      change (bits_of 1 1) with [true]. rewrite <- app_assoc. rewrite Hcont by lia.
+      cbn [app t87_run_length]. rewrite t87_Jof_eq.
+      destruct (Z.ltb_spec (0 + n - rl' + 2 ^ Jof r1) remaining); [lia|].
+      destruct (Z.eqb_spec (0 + n - rl' + 2 ^ Jof r1) remaining); [lia|]. subst n. reflexivity.
+  - inversion Henc; subst ops ri'. clear Henc. rewrite frev_rev. cbn [rev].
+    rewrite rev_repeat, ops_bits_app, ops_bits_ones. cbn [ops_bits]. rewrite app_nil_r.
+    rewrite <- app_assoc. rewrite Hcont by lia.
+    assert (H32 : 2 ^ Jof r1 <= 2 ^ 32) by (apply Z.pow_le_mono_r; lia).
+    unfold wrapU. rewrite (Z.mod_small rl') by lia.
+    unfold bits_of. replace (Z.to_nat (Jof r1 + 1)) with (S (Z.to_nat (Jof r1))) by lia.
+    cbn [bits_of_nat app]. rewrite Z2Nat.id by lia.
+    assert (Htb : Z.testbit rl' (Jof r1) = false).
+    { destruct (Z.eq_dec rl' 0) as [->|]; [apply Z.testbit_0_l|].
+      apply Z.bits_above_log2; [lia|]. apply Z.log2_lt_pow2; lia. }
+    rewrite Htb. cbn [t87_run_length]. rewrite t87_Jof_eq.
+    fold (bits_of rl' (Jof r1)). rewrite t87_take_bits_of by lia.
+    destruct (Z.geb_spec (0 + n - rl' + rl') remaining); [lia|].
+    f_equal. f_equal. f_equal. f_equal. lia.
+Qed.
+
+(* ---------- run interruption ---------- *)
+
+Lemma ggc_t87_k : forall f1 f2 n nT temp k,
+  nT = n * 2 ^ k -> 1 <= n -> temp <= n * 2 ^ 32 -> 0 <= k <= 32 ->
+  (Z.to_nat (32 - k) < f1)%nat -> (Z.to_nat (32 - k) < f2)%nat ->
+  ggc_loop f1 nT temp k = t87_k f2 n temp k.
+Proof.
+  induction f1 as [|f1 IH]; intros f2 n nT temp k HnT Hn Ht Hk H1 H2; [lia|].
+  destruct f2 as [|f2]; [lia|]. cbn [ggc_loop t87_k]. rewrite <- HnT.
+  destruct (Z.ltb_spec nT temp) as [Hlt|Hge]; [|reflexivity].
+  assert (k < 32).
+  { destruct (Z.eq_dec k 32) as [->|]; [lia | lia]. }
+  destruct (Z.gtb_spec (k + 1) 32); [lia|].
+  apply IH; try lia.
+  rewrite Z.shiftl_mul_pow2 by lia. rewrite HnT, Z.pow_add_r by lia. ring.
+Qed.
+
+Definition run_rel (u : t87run) (c : runctx) : Prop := uA u = rc_A c /\ uN u = rc_N c /\ uNn u = rc_NN c.
+
+(* t87_interruption_roundtrip: A.7.2 decoding of the bits EncodeRunInterruption wrote: the error
+   value, the reconstruction and the update of A, N, Nn agree with the coded ones *)
+Theorem t87_interruption_roundtrip : forall P near st c e ra rb rest,
+  2 <= P <= 16 -> 0 <= near <= near_max P ->
+  let p := jls_params P near in
+  let ritype := rc_type c in
+  let u := if ritype =? 0 then ts_r365 st else ts_r366 st in
+  let px := if ritype =? 1 then ra else rb in
+  let sign := if (ritype =? 0) && (ra >? rb) then -1 else 1 in
+  ritype = 0 \/ ritype = 1 -> run_rel u c -> runctx_ok c -> 0 <= ts_runindex st <= 31 ->
+  (ritype = 1 -> e <> 0) -> 2 * Z.abs e <= jp_range p -> 0 <= px <= 2 ^ P - 1 ->
+  exists u',
+    t87_interruption p st ritype ra rb
+      (ops_bits (fst (EncodeRunInterruption p (ts_runindex st) c e)) ++ rest) =
+    Some (ComputeReconstructedSample p px (sign * e),
+          (if ritype =? 0 then mkT87St (ts_ctx st) u' (ts_r366 st) (ts_runindex st)
+           else mkT87St (ts_ctx st) (ts_r365 st) u' (ts_runindex st)), rest) /\
+    run_rel u' (snd (EncodeRunInterruption p (ts_runindex st) c e)).
+Proof.
+  intros P near st c e ra rb rest HP Hn p ritype u px sign Hty (RA & RN & RNn) Hok Hri He1 Heabs Hpx.
+  pose proof (jls_params_facts P near HP Hn) as F. fold p in F.
+  destruct F as [Fmv Fnear Frange Fr2 Frq Fq1 Fq16 Fll Flh Freset Ft1 Ft12 Ft23 Fa].
+  pose proof (pow2_bounds P HP) as Hpb.
+  pose proof Hok as [[HN1 HN2] [HA1 HA2]].
+  pose proof (Jof_range _ Hri) as HJ.
+  assert (HR16 : jp_range p <= 65536).
+  { assert (2 ^ jp_qbpp p <= 2 ^ 16) by (apply Z.pow_le_mono_r; lia). change (2 ^ 16) with 65536 in *. lia. }
+  unfold EncodeRunInterruption. cbv zeta. cbn [fst snd]. rewrite Freset.
+  set (k := GetGolombCode c).
+  pose proof (GetGolombCode_nonneg c) as Hk0. fold k in Hk0.
+  pose proof (GetGolombCode_le32 c Hty Hok) as Hk32. fold k in Hk32.
+  set (mp := ComputeMap c e k).
+  set (em := if mp then 2 * Z.abs e - rc_type c - 1 else 2 * Z.abs e - rc_type c).
+  assert (Hmp : mp = true -> e <> 0).
+  { unfold mp, ComputeMap. intros H E. rewrite E in H. cbn in H. rewrite !andb_false_r in H. cbn in H. discriminate. }
+  fold ritype in em.
+  assert (Hem0 : 0 <= em).
+  { unfold em. destruct mp eqn:Em.
+    - specialize (Hmp eq_refl). destruct Hty as [T|T]; rewrite T; lia.
+    - destruct Hty as [T|T]; rewrite T; [lia|]. specialize (He1 T). lia. }
+  assert (Hem1 : em - 1 < 2 ^ jp_qbpp p).
+  { unfold em. destruct mp; destruct Hty as [T|T]; rewrite T; lia. }
+  unfold t87_interruption. fold u.
+  (* Golomb parameter *)
+  assert (Hkeq : t87_k 40 (uN u) (if ritype =? 0 then uA u else uA u + uN u / 2) 0 = k).
+  { unfold k, GetGolombCode. rewrite RA, RN. fold ritype. symmetry.
+    assert (Hhalf : Z.shiftr (rc_N c) 1 = rc_N c / 2) by (rewrite Z.shiftr_div_pow2 by lia; reflexivity).
+    assert (0 <= rc_N c / 2 <= rc_N c) by (Z.div_mod_to_equations; lia).
+    change (2 ^ 32) with 4294967296 in *.
+    destruct Hty as [T|T]; rewrite T; cbn [Z.eqb]; rewrite Hhalf.
+    - rewrite Z.mul_0_r, Z.add_0_r. apply ggc_t87_k; simpl; try lia; try (change (2 ^ 32) with 4294967296; lia).
+    - rewrite Z.mul_1_r. apply ggc_t87_k; simpl; try lia; try (change (2 ^ 32) with 4294967296; lia). }
+  rewrite Hkeq. rewrite t87_Jof_eq.
+  rewrite t87_golomb_roundtrip by lia.
+  (* recovering the error value *)
+  assert (Ht : em + ritype = 2 * Z.abs e - (if mp then 1 else 0)) by (unfold em; destruct mp; lia).
+  assert (Hodd : Z.odd (em + ritype) = mp).
+  { rewrite Ht. destruct mp.
+    - replace (2 * Z.abs e - 1) with (1 + 2 * (Z.abs e - 1)) by ring. rewrite Z.odd_add_mul_2. reflexivity.
+    - replace (2 * Z.abs e - 0) with (0 + 2 * Z.abs e) by ring. rewrite Z.odd_add_mul_2. reflexivity. }
+  rewrite Hodd.
+  assert (Hmag : (em + ritype + (if mp then 1 else 0)) / 2 = Z.abs e).
+  { rewrite Ht. replace (2 * Z.abs e - (if mp then 1 else 0) + (if mp then 1 else 0)) with (Z.abs e * 2) by (destruct mp; lia).
+    apply Z.div_mul. lia. }
+  rewrite Hmag.
+  assert (Herr : (if (if negb (k =? 0) || (2 * uNn u >=? uN u) then mp else negb mp) then - Z.abs e else Z.abs e) = e).
+  { rewrite RNn, RN. unfold mp, ComputeMap.
+    destruct (Z.eqb_spec k 0) as [Ek|Nk]; cbn [negb andb orb];
+      destruct (Z.gtb_spec e 0); destruct (Z.ltb_spec e 0); try lia;
+      destruct (Z.ltb_spec (2 * rc_NN c) (rc_N c)); destruct (Z.geb_spec (2 * rc_NN c) (rc_N c)); try lia;
+      cbn [negb andb orb]; lia. }
+  rewrite Herr.
+  (* reconstruction *)
+  assert (Hsign : sign = 1 \/ sign = -1) by (unfold sign; destruct ((ritype =? 0) && (ra >? rb)); auto).
+  assert (Her : - (jp_range p - 1) <= e <= jp_range p - 1) by lia.
+  pose proof (t87_reconstruct_eq P near px sign e HP Hn Hsign Hpx Her) as Hrec. cbv zeta in Hrec. fold p in Hrec.
+  fold px sign. unfold p in *. rewrite Hrec.
+  (* update *)
+  set (u' := if uN u =? 64
+             then mkT87Run ((uA u + (em + 1 - ritype) / 2) / 2) (uN u / 2 + 1) ((if e <? 0 then uNn u + 1 else uNn u) / 2)
+             else mkT87Run (uA u + (em + 1 - ritype) / 2) (uN u + 1) (if e <? 0 then uNn u + 1 else uNn u)).
+  exists u'. split.
+  - rewrite Freset. reflexivity.
+  - unfold run_rel, u', UpdateVariables. fold ritype. rewrite RA, RN, RNn.
+    assert (Hinc : 0 <= em + 1 - ritype) by (destruct Hty as [T|T]; rewrite T; lia).
+    rewrite !Z.shiftr_div_pow2 by lia. change (2 ^ 1) with 2.
+    destruct (Z.eqb_spec (rc_N c) 64); cbn [uA uN uNn rc_A rc_N rc_NN]; repeat split; try lia;
+      destruct (e <? 0); reflexivity.
+Qed.
